@@ -75,20 +75,7 @@ func (w *World) readProjection() *projection {
 	err := w.cg.ForEachChannel(w.ctx, lnwire.GossipVersion1, func(info *models.ChannelEdgeInfo,
 		p1, p2 *models.ChannelEdgePolicy) error {
 
-		c := &pChan{
-			scid: info.ChannelID, capacity: int64(info.Capacity), outpoint: info.ChannelPoint,
-			node: [2][33]byte{info.NodeKey1Bytes, info.NodeKey2Bytes},
-		}
-		if info.AuthProof == nil {
-			c.noProof = true
-			c.wire, c.err = prooflessWire(info)
-		} else if ann, err := info.ToChannelAnnouncement(); err != nil {
-			c.err = err.Error()
-		} else {
-			c.wire = encode(ann)
-		}
-		c.pol[0] = projPolicy(info, p1)
-		c.pol[1] = projPolicy(info, p2)
+		c := projChan(info, p1, p2)
 		pr.chans[c.scid] = c
 		return nil
 	}, func() {
@@ -114,6 +101,25 @@ func (w *World) readProjection() *projection {
 	})
 	w.r.Must(err, "ForEachNode")
 	return pr
+}
+
+// projChan is the projection of one stored channel.
+func projChan(info *models.ChannelEdgeInfo, p1, p2 *models.ChannelEdgePolicy) *pChan {
+	c := &pChan{
+		scid: info.ChannelID, capacity: int64(info.Capacity), outpoint: info.ChannelPoint,
+		node: [2][33]byte{info.NodeKey1Bytes, info.NodeKey2Bytes},
+	}
+	if info.AuthProof == nil {
+		c.noProof = true
+		c.wire, c.err = prooflessWire(info)
+	} else if ann, err := info.ToChannelAnnouncement(); err != nil {
+		c.err = err.Error()
+	} else {
+		c.wire = encode(ann)
+	}
+	c.pol[0] = projPolicy(info, p1)
+	c.pol[1] = projPolicy(info, p2)
+	return c
 }
 
 // prooflessWire is the channel_announcement of an edge without AuthProof: all
